@@ -1008,6 +1008,12 @@ class Image(object):
 
         self._wcs = _flip_wcs_parity(self._wcs, self.height)
         self._array = self.asarray()[::-1]
+
+        if self._pil is not None:
+            # Keep the PIL representation, which aspil() and therefore save()
+            # hand out for bitmap formats, in sync with the flipped array.
+            self._pil = self._pil.transpose(pil_image.FLIP_TOP_BOTTOM)
+
         return self
 
     def ensure_negative_parity(self):
